@@ -4,6 +4,7 @@ import (
 	"go/ast"
 	"go/token"
 	"go/types"
+	"sort"
 	"strings"
 
 	"golang.org/x/tools/go/cfg"
@@ -176,13 +177,88 @@ func (pp *pathPass) before(fd *ast.FuncDecl, target ast.Node) bool {
 		}
 		return false
 	}
-	seen := map[*cfg.Block]bool{}
-	var walk func(b *cfg.Block) bool
-	walk = func(b *cfg.Block) bool {
-		if seen[b] {
+	// error variables carried along the path: a test of one against nil that was taken one way is taken the same way
+	// at the next test, until the variable is assigned again (`if err == nil { step }; if err == nil { store }`)
+	type nilEnv map[types.Object]bool // true: known nil, false: known non-nil
+	sig := func(env nilEnv) string {
+		var parts []string
+		for o, v := range env {
+			if v {
+				parts = append(parts, o.Name()+"=nil")
+			} else {
+				parts = append(parts, o.Name()+"!=nil")
+			}
+		}
+		sort.Strings(parts)
+		return strings.Join(parts, ",")
+	}
+	// nilLeaf: e is `v == nil` / `v != nil` for an error variable v
+	nilLeaf := func(e ast.Expr) (types.Object, bool, bool) {
+		be, ok := ast.Unparen(e).(*ast.BinaryExpr)
+		if !ok || (be.Op != token.EQL && be.Op != token.NEQ) {
+			return nil, false, false
+		}
+		x, y := be.X, be.Y
+		if isNilExpr(info, x) {
+			x, y = y, x
+		}
+		id, ok := ast.Unparen(x).(*ast.Ident)
+		if !ok || !isNilExpr(info, y) || !isErrorT(info.TypeOf(id)) {
+			return nil, false, false
+		}
+		return info.ObjectOf(id), be.Op == token.EQL, true
+	}
+	var decide func(e ast.Expr, env nilEnv) (bool, bool)
+	decide = func(e ast.Expr, env nilEnv) (bool, bool) {
+		e = ast.Unparen(e)
+		if o, isEq, ok := nilLeaf(e); ok {
+			if v, known := env[o]; known {
+				return v == isEq, true
+			}
+			return false, false
+		}
+		switch x := e.(type) {
+		case *ast.UnaryExpr:
+			if x.Op == token.NOT {
+				if v, ok := decide(x.X, env); ok {
+					return !v, true
+				}
+			}
+		case *ast.BinaryExpr:
+			if x.Op == token.LAND || x.Op == token.LOR {
+				a, okA := decide(x.X, env)
+				b, okB := decide(x.Y, env)
+				if x.Op == token.LAND {
+					if (okA && !a) || (okB && !b) {
+						return false, true
+					}
+					if okA && okB {
+						return true, true
+					}
+				} else {
+					if (okA && a) || (okB && b) {
+						return true, true
+					}
+					if okA && okB {
+						return false, true
+					}
+				}
+			}
+		}
+		return false, false
+	}
+	type visit struct {
+		b *cfg.Block
+		s string
+	}
+	seen := map[visit]bool{}
+	var walk func(b *cfg.Block, env nilEnv) bool
+	walk = func(b *cfg.Block, env nilEnv) bool {
+		k := visit{b, sig(env)}
+		if seen[k] {
 			return true
 		}
-		seen[b] = true
+		seen[k] = true
 		for _, n := range b.Nodes {
 			// a node that holds both is read mark first only when the mark is not the target itself
 			if target == nil && pp.marks(n) {
@@ -192,10 +268,38 @@ func (pp *pathPass) before(fd *ast.FuncDecl, target ast.Node) bool {
 				if target != nil && pp.marksBeforeIn(n, target) {
 					return true
 				}
+				if target == nil {
+					// `return err` with err known non-nil on this path is a failure
+					if r, ok := n.(*ast.ReturnStmt); ok && len(r.Results) > 0 {
+						if id, ok := ast.Unparen(r.Results[len(r.Results)-1]).(*ast.Ident); ok {
+							if v, known := env[info.ObjectOf(id)]; known && !v {
+								return true
+							}
+						}
+					}
+				}
 				return false
 			}
 			if pp.marks(n) {
 				return true
+			}
+			// an assignment to a carried error variable: its state is open again
+			if as, ok := n.(*ast.AssignStmt); ok {
+				for _, l := range as.Lhs {
+					if id, ok := ast.Unparen(l).(*ast.Ident); ok {
+						if o := info.ObjectOf(id); o != nil {
+							if _, had := env[o]; had {
+								env2 := nilEnv{}
+								for k2, v2 := range env {
+									if k2 != o {
+										env2[k2] = v2
+									}
+								}
+								env = env2
+							}
+						}
+					}
+				}
 			}
 		}
 		if len(b.Succs) == 0 {
@@ -214,14 +318,33 @@ func (pp *pathPass) before(fd *ast.FuncDecl, target ast.Node) bool {
 			}
 			return fd.Type.Results != nil && len(fd.Type.Results.List) > 0
 		}
+		if len(b.Succs) == 2 && len(b.Nodes) > 0 {
+			if ce, ok := b.Nodes[len(b.Nodes)-1].(ast.Expr); ok {
+				if v, known := decide(ce, env); known {
+					if v {
+						return walk(b.Succs[0], env)
+					}
+					return walk(b.Succs[1], env)
+				}
+				// a plain nil test not yet decided: each side learns what it assumes
+				if o, isEq, ok := nilLeaf(ce); ok {
+					t, f := nilEnv{}, nilEnv{}
+					for k2, v2 := range env {
+						t[k2], f[k2] = v2, v2
+					}
+					t[o], f[o] = isEq, !isEq
+					return walk(b.Succs[0], t) && walk(b.Succs[1], f)
+				}
+			}
+		}
 		for _, s := range b.Succs {
-			if !walk(s) {
+			if !walk(s, env) {
 				return false
 			}
 		}
 		return true
 	}
-	return walk(g.Blocks[0])
+	return walk(g.Blocks[0], nilEnv{})
 }
 
 // marksBeforeIn: inside the one CFG node n, a mark is evaluated before target (an argument of the target call, say).
